@@ -36,8 +36,8 @@ type Signer struct {
 	Sites     []*SignSite
 	RunRules  map[*ssa.Function]ssa.CallInstruction // endpoint -> its RunRules invoke
 	PreCheck  *ssa.Function
-	Wrapper map[*ssa.Function]*ssa.Function // core endpoint -> exported wrapper (when the endpoint is a thin wrapper)
-	Phase     map[*ssa.Function]*ssa.Call // endpoint -> its call of a package helper that runs the pre-checks (nil: the endpoint runs them itself)
+	Wrapper   map[*ssa.Function]*ssa.Function // core endpoint -> exported wrapper (when the endpoint is a thin wrapper)
+	Phase     map[*ssa.Function]*ssa.Call     // endpoint -> its call of a package helper that runs the pre-checks (nil: the endpoint runs them itself)
 	ok        bool
 }
 
